@@ -35,11 +35,14 @@ CASES = {
 VARIANTS = ['plain', 'slots', 'guarded']
 
 
-def make_classes(variant, log, refs):
-    """fresh user classes per path"""
+def make_classes(variant, log, refs, hooks=()):
+    """fresh user classes per path; hooks: callables invoked at the start of every __init__
+    (a fault point inside the user's constructor)"""
     from textx.model import ObjCrossRef
 
     def note_init(self, kw):
+        for h in hooks:
+            h('init')
         unresolved = [k for k, v in kw.items() if isinstance(v, ObjCrossRef) or
                       (isinstance(v, list) and any(isinstance(x, ObjCrossRef) for x in v))]
         log.append(('init', type(self).__name__, kw.get('name'), tuple(sorted(kw)), tuple(unresolved), id(self)))
@@ -111,7 +114,8 @@ def run_path(c, case, variant, global_repo, allow_fault, allow_replace, fault_ki
         with open(os.path.join(tmpd, fn), 'w') as f:
             f.write(content)
     log, refs = [], []
-    Box, Leaf, Model = make_classes(variant, log, refs)
+    hooks = []
+    Box, Leaf, Model = make_classes(variant, log, refs, hooks)
     # editor support on/off: with it textX stores more bookkeeping on the model objects
     tools = c.branch(z3.Bool('textx_tools_support'))
     mm = metamodel_from_str(GRAMMAR, classes=[Box, Leaf, Model], global_repository=global_repo,
@@ -132,6 +136,7 @@ def run_path(c, case, variant, global_repo, allow_fault, allow_replace, fault_ki
             raise Fault('injected fault at %s #%d' % (kind, i))
 
     from_string = case.startswith('string-')
+    hooks.append(point)           # the constructors of the user classes are fault points, too
     inner = P.PlainNameGlobalRepo(os.path.join(tmpd, '*.m')) if from_string else P.PlainNameImportURI()
     from textx.scoping import ModelLoader
 
